@@ -370,8 +370,11 @@ def py_lints(ctx, py, mods, only=None):
     py_stale_rows(ctx, py, mods, only=only)
     py_find_index(ctx, py, mods, only=only)
     py_default_independent(ctx, py, mods, only=only)
-    from . import lib_kind3
+    from . import lib_kind3, lib_kind4
     lib_kind3.py_slips(ctx, py, mods, only=only)
+    classes = [(mn, c) for mn in mods if mn in lib_py.FACADES for c in lib_py.FACADES[mn]]
+    if classes:
+        lib_kind4.ll_every_path(ctx, py, classes, only=only, floor=0)
 
 
 TS_WRITERS_OK = {
@@ -1050,6 +1053,18 @@ def py_unknown_time(ctx, py, rule="PY-UNKNOWN-TIME"):
                     ctx.ob(rule, "%s.%s|%s" % (mn, qn, t[:40]), not bad, m.loc(x),
                            "UNKNOWN_TIME substituted under `%s`" % t[:60] if not bad else
                            "UNKNOWN_TIME is substituted under `%s`: a NaN time is silently turned into the 'unknown' sentinel" % t[:60])
+    # the text marker: `"unknown" if <test> else <value>` must test THAT value with is_unknown_time
+    for mn in ("text_formats", "trees"):
+        m = py.mod(mn)
+        for qn, fn in m.funcs.items():
+            for x in ast.walk(fn):
+                if isinstance(x, ast.IfExp) and isinstance(x.body, ast.Constant) and x.body.value == "unknown":
+                    t, v = x.test, ast.unparse(x.orelse)
+                    ok = isinstance(t, ast.Call) and ast.unparse(t.func).endswith("is_unknown_time") and len(t.args) == 1 and ast.unparse(t.args[0]) == v
+                    n += 1
+                    ctx.ob(rule, "%s.%s|marker" % (mn, qn), ok, m.loc(x),
+                           "the 'unknown' marker is chosen by is_unknown_time(%s), the value it replaces" % v if ok else
+                           "the 'unknown' marker replaces `%s` under `%s`, which does not test that value" % (v, ast.unparse(t)[:50]))
     return n
 
 
@@ -1071,4 +1086,21 @@ def py_tokenise_siblings(ctx, py, rule="PY-TEXT-TOKENS"):
     for qn, (v, x) in sorted(forms.items()):
         ok = v == common and "rstrip('\\n')" in v
         ctx.ob(rule, qn, ok, m.loc(x), "tokens = %s" % v if ok else "tokens = %s differs from its siblings' `%s`" % (v, common))
+    # a row is present when the line has fields, whatever they contain; and a field's items reach the table as written
+    for qn, fn in sorted(m.funcs.items()):
+        if not qn.startswith("parse_"):
+            continue
+        tokvars = {"tokens"}
+        for x in ast.walk(fn):
+            if isinstance(x, ast.Call) and ast.unparse(x.func) in ("any", "all", "bool") and x.args and isinstance(x.args[0], ast.Name) \
+                    and x.args[0].id in tokvars:
+                ctx.ob(rule, "%s|row-presence" % qn, False, m.loc(x), "`%s` decides the presence of a row by the truthiness of its fields: a row whose "
+                       "only field is the empty string (empty metadata) is dropped" % ast.unparse(x))
+            if isinstance(x, ast.If) and isinstance(x.test, ast.Name) and x.test.id in tokvars:
+                pass    # `if tokens:` is len(tokens) > 0
+            if isinstance(x, ast.Call) and ast.unparse(x.func).split(".")[-1] in ("set", "frozenset", "unique", "fromkeys") \
+                    and any(isinstance(y, ast.Name) and y.id in tokvars for a in x.args for y in ast.walk(a)):
+                ctx.ob(rule, "%s|verbatim" % qn, False, m.loc(x), "`%s` removes repeated items of a parsed field: a duplicate in the text "
+                       "(which the table checks would reject) never reaches the table" % ast.unparse(x)[:60])
+        ctx.ob(rule, "%s|fields" % qn, True, m.loc(fn), "parsed fields analysed for row-presence and verbatim forwarding")
     return len(forms)
